@@ -56,6 +56,18 @@ CHECKS = {
                 technique="TLC on MCRtrMgr (RtrMgr.tla: rtr_mgr_cb and friends as coded; the four clauses of C15 as action properties) + trace validation of the real rtr_mgr code under TLC-generated and seeded event sequences (RtrMgrTrace.tla)",
                 text="TLC explores every sequence of legal socket state changes, expiries, group additions and removals for 3x1, 2x2 (quick) and dynamic (thorough) configurations and checks: ESTABLISHED only if all sockets hold data, all less-preferred groups closed on establishment, never stopped for a worse group, failover starts the most-preferred closed group. The real rtr_mgr_init/cb/add/remove (rtr_start/rtr_stop link-wrapped) is driven by TLC-generated and seeded sequences incl. invalid configurations; statuses in for_each order, first group, running sockets, callbacks and return codes are checked by TLC after every step.",
                 note="rtr_start/rtr_stop are stubs reproducing their state effects; bounded configurations on the model side; seeded samples on the code side; NDEBUG+ASan"),
+    "C04": dict(engine="fsm", cat="exploration", ref="5/C04",
+                technique="outcome function in RtrSocket.tla (well-formedness classes => never applied, exchange fails) decided by trace validation; memory safety / assertions / termination by an ASan+UBSan build with assertions enabled and the harness watchdog; two chunkings per stream",
+                text="Seeded hostile streams (hostile field values, every length-field pathology per type, truncation at every byte, unknown types, Error Reports with inconsistent inner lengths, framed noise) are fed to the real FSM thread and to the established-state wait, each stream byte-at-a-time and in random chunks; a crash, sanitizer report, assertion failure or watchdog hit is a violation, both traces must be accepted by RtrSocketTrace.tla (OK_C04: tables and callbacks change only as the envelope predicts) and their chunk-independent projections must be equal.",
+                note="finite seeded sample; sanitizers are instruments, not proofs; UBSan's alignment check is excluded (x86 tolerates the unaligned stores in packets.c); TLA+ decides the outcome function only"),
+    "C19": dict(engine="iptext", cat="exploration", ref="5/C19",
+                technique="IpText.tla enumerates the RFC 4291 text forms with the address each denotes; IpTextTrace.tla judges every call of the library against the generator and the platform's inet_pton; ASan and MSan builds",
+                text="6151 generated IPv6 texts (every zero-run position/length, three spellings, embedded IPv4), their truncations and single-character mutations, structured and seeded IPv4/IPv6 addresses: parse equals the denoted address and inet_pton; every string inet_pton accepts is accepted with the same result; formatting round-trips through library and inet_pton; no write beyond the given length for every length 0..50 (canaries); results depend on the text only (two stack fills + MemorySanitizer on accepted results).",
+                note="glibc inet_pton is the external oracle; TLA+ serves as generator and judge, it cannot decide the platform parser"),
+    "C20": dict(engine="names", cat="model_checking", ref="5/C20",
+                technique="Names.tla over enumerator lists generated from the public headers at check time; exhaustive over an integer range; ASan+UBSan build, one forked child per value",
+                text="For every integer in -3..40 (quick) / -300..1000 (thorough) TLC decides from the header-derived enumerator lists what rtr_state_to_str / rtr_mgr_status_to_str must return (the enumerator's name, or NULL); the real functions are called in an ASan build where the name tables have red zones.",
+                note="finite range enumerated completely; enumerators assumed consecutive from 0 (checked by the generator)"),
 }
 
 NA_REASON = "check not built yet in this round (planned: see DESIGN.md section 5); no claim is made"
